@@ -36,6 +36,10 @@ def main():
             print(sid, 'ERROR', res['error']); continue
         caught = {p: v for p, v in res.items() if v['exit'] == 1}
         own = sid[:3]
+        meta = json.load(open(os.path.join(VERIF, 'seeded', sid, 'meta.json')))
+        if meta.get('status') == 'neutralised':
+            print('{}: neutralised by fix {} (demo passes on the repaired tree) -> checker {}'.format(sid, meta['neutralised_by'], 'SILENT (correct)' if not caught else 'ALARMS (false alarm!) ' + str(sorted(caught))))
+            continue
         line = '{}: {}'.format(sid, '; '.join('{} [{}]'.format(p, ', '.join(v['rules'])) for p, v in sorted(caught.items())) or 'NOT DETECTED ' + str({p: v['exit'] for p, v in res.items()}))
         print(line[:300])
         if own not in caught:
